@@ -9,6 +9,7 @@
        SELECT changed_col(true, <call>) ... : the rows delivered for the windows whose values changed ("-" = item absent)
      H <N> <k> (<agg> <param> <arg>)*k # <h> (<agg> <param> <arg>)*h # <pred> # <cells of all rows> # <batch 1> # ...
        a query with HAVING over selected and hidden calls; <batch b> = E when nothing was delivered
+     GE / SE / ME / HE ...  the same lines; every missing cell was sent as an event without any column ({})
    Verdicts: "chk <clause>" = the implementation's result is not the documented definition on this input;
              "diff ..."     = the implementation's result is not the model's. *)
 open Model
@@ -342,8 +343,16 @@ let judge_batches (fields : (string * agg * mode) list) (batches : cell list lis
           end) batches) fields;
   match !verdict with Some v -> v | None -> "ok nt"
 
-let handle (toks : string list) : string =
+let rec handle (toks : string list) : string =
   match toks with
+  (* GE / SE / ME / HE: the lines of families G / S / M / H; the harness has sent every missing cell ("m") as an event
+     without any column ({}), whole batches of them included (harness/c03e.go).  The model and the definition are the
+     same: such an event is a row whose input is missing - count( * ) counts it, a batch of such rows has a result. *)
+  | ("GE" | "SE" | "ME" | "HE" as fam) :: rest ->
+      let v = handle (String.sub fam 0 1 :: rest) in
+      let pre p = String.length v >= String.length p && String.sub v 0 (String.length p) = p in
+      if pre "chk " || pre "diff "
+      then v ^ " [m = an event without any column, {}]" else v
   | "D" :: name :: param :: rest ->
       (match split_hash rest with
        | [ []; vals; res ] -> handle_direct name param vals res None
